@@ -10,8 +10,14 @@
      UIJson.update_state/_data    -> form_update    (register the members other than "value", then assign the value - or, when the
                                                      dictionary has no "value", the dictionary itself: transcribed as written)
      FormParameter.active / form  -> form_active / form_view
+     FormParameter.validate       -> form_validate  (the EnforcerPool built ONCE in __init__ from `validations`: the required
+                                                     form members and, when group_optional was active at construction, "group")
    Which Parameter class sits behind which member is read off the live object by the driver (reflection), so the model is
-   tied to the class definitions of the tree under test. *)
+   tied to the class definitions of the tree under test.
+   OUTSIDE the model: assignment to a name that is not a member (forms.py has no __setattr__ guard: Python creates a plain
+   attribute, and a name starting with "_" would even enlarge valid_members) - the generator only assigns members, and
+   [form_set] answers AttributeError there only to stay total; DataValueFormParameter (its value setter routes non-numbers
+   to `_property`), Object/Data/File form classes; UIJson.validate. *)
 From Coq Require Import String.
 From GV Require Import Prelude.Base Model.PyVal Model.Enforcers.
 Local Open Scope string_scope.
@@ -104,12 +110,22 @@ Definition form_update (table : list (string * string)) (f : fstate) (items : li
       end
   end.
 
-Inductive fop := FSet (m : string) (v : pv) | FRegister (items : list (string * pv)) | FUpdate (items : list (string * pv)).
+(* FormParameter.validate(): self.enforcers.enforce(self.form()) with the enforcers frozen at construction:
+   RequiredFormMemberEnforcer(reqm) and, if present, RequiredEnforcer(req); each fails when a name is missing from form() *)
+Definition form_validate (reqm req : list string) (has_req : bool) (f : fstate) : res unit :=
+  let keys := form_active f in
+  let ok l := forallb (fun k => existsb (String.eqb k) keys) l in
+  let errs := (if has_req && negb (ok req) then 1 else 0) + (if ok reqm then 0 else 1) in
+  match errs with 0 => Ok tt | 1 => Raise (Validation VInCollection) | _ => Raise (Validation VAggregate) end.
+
+Inductive fop := FSet (m : string) (v : pv) | FRegister (items : list (string * pv)) | FUpdate (items : list (string * pv))
+               | FValidate (reqm req : list string) (has_req : bool).
 Definition form_step (table : list (string * string)) (f : fstate) (o : fop) : fstate * res unit :=
   match o with
   | FSet m v => form_set f m v
   | FRegister items => form_register table f items
   | FUpdate items => form_update table f items
+  | FValidate reqm req has_req => (f, form_validate reqm req has_req f)
   end.
 Fixpoint form_run (table : list (string * string)) (f : fstate) (ops : list fop) : list (res unit * pv * list string) :=
   match ops with
